@@ -177,7 +177,10 @@ func randomScenario(mode string, rng *rand.Rand, k int) scenario {
 			sc.Isolate = rng.Intn(2) == 0
 		}
 	}
-	sc.RebroadcastAfterRound = []int{-1, 0, 1}[rng.Intn(3)]
+	sc.RebroadcastAfterRound = []int{0, 0, 1, -1}[rng.Intn(4)]
+	if mode == "random" && k%2 == 1 {
+		sc.RebroadcastAfterRound = 0 // every other random run: the late-round regime from round 1 on
+	}
 	sc.Name = fmt.Sprintf("%s-%d", mode, k)
 	return sc
 }
